@@ -33,6 +33,7 @@ def spaceCheck (which : String) (rows : List MatRow) : Option Bool :=
   | "names" => some (namesOk rows)
   | "table" => some (matchesTable rows)
   | "mks" => some (mksIsTable rows)
+  | "cgsdim" => some (cgsHasNoCurrent rows)
   | "aliases" => some (aliasesEqual rows)
   | "suffixes" => some (suffixesEqual rows)
   | "registry" => some (registryEqual pcRows rows)
@@ -102,7 +103,7 @@ def opsC15 : Handler := fun st fields =>
   | ["c15.ref", n] =>
     match Ref.C15.find? n with
     | none => some (st, "none")
-    | some r => some (st, s!"ok\t{ratStr r.v}\t{ratStr r.cls.tol}\t{r.dim.str}")
+    | some r => some (st, s!"ok\t{ratStr r.v}\t{ratStr r.tol}\t{r.dim.str}\t{r.note}")
   | ["c15.ref.lists"] =>
     some (st, s!"ok\t{",".intercalate Ref.C15.exclUnitVsConstant}\t{",".intercalate Ref.C15.exclValue}\t{",".intercalate Ref.C15.homonyms}")
   | ["c15.relations"] =>
@@ -114,7 +115,7 @@ def opsC15 : Handler := fun st fields =>
     | none =>
       match Ref.C15.numRelations.find? (fun r => r.name == n) with
       | some r =>
-        some (st, s!"ok\t{bitsStr ((closeRel r.lhs).eval baseF)}\t{bitsStr ((closeRel r.rhs).eval baseF)}\t{boolStr (numRelationOk r)}\t{ratStr r.cls.tol}")
+        some (st, s!"ok\t{bitsStr ((closeRel r.lhs).eval baseF)}\t{bitsStr ((closeRel r.rhs).eval baseF)}\t{boolStr (numRelationOk r)}\t{ratStr r.tol}")
       | none => some (st, "none")
   -- the Boolean checks the theorems are about
   | ["c15.check", "relations"] => some (st, s!"ok\t{boolStr relationsOk}")
@@ -123,6 +124,16 @@ def opsC15 : Handler := fun st fields =>
   | ["c15.check", "unitdoubles"] => some (st, s!"ok\t{boolStr unitCellsMatchDoubles}")
   | ["c15.check", "unsuffixed"] => some (st, s!"ok\t{boolStr unitSymbolsUnsuffixed}")
   | ["c15.check", "constunits"] => some (st, s!"ok\t{boolStr constUnitsOk}")
+  | ["c15.check", "editions"] => some (st, s!"ok\t{boolStr editionsOk}")
+  | ["c15.editions", n] =>
+    match Ref.C15.editions.lookup n with
+    | none => some (st, "none")
+    | some es =>
+      let got := match constTable.find? (fun c => c.spec.name == n) with
+        | some c => (editionOf c).getD "(none)"
+        | none => "(no such constant)"
+      some (st, s!"ok\t{got}\t{";".intercalate (es.map fun e => s!"{e.1}={ratStr e.2}")}")
+  | ["c15.editions"] => some (st, "ok\t" ++ ",".intercalate (Ref.C15.editions.map (·.1)))
   | ["c15.check", "top"] => some (st, s!"ok\t{boolStr (bitwiseEqual pcRows topRows)}")
   | ["c15.check", "unitconst", excl] =>
     some (st, s!"ok\t{boolStr (unitAndConstantAgree (if excl == "1" then Ref.C15.exclUnitVsConstant else []))}")
